@@ -132,37 +132,74 @@ def Entry.raw (e : Entry) : Nat × Nat × Nat × Nat := (e.tag, e.data.typeCode,
 
 theorem writeEntry_eq_raw (e : Entry) : writeEntry e = writeRaw e.raw := rfl
 
-theorem decodeAll_ok {store raws es} (h : decodeAll store raws = .ok es) :
-    es.map Entry.raw = raws ∧ ∀ e ∈ es, decode store e.data.typeCode e.off e.cnt = .ok e.data := by
-  induction raws generalizing es with
+/-- store bytes the data of the entries occupies together, counted as the second loop of `parse_header` counts them -/
+def usedSum (store : Bytes) (es : List Entry) : Nat := (es.map fun e => decodeUsed store e.off e.cnt e.data).sum
+
+theorem usedSum_cons (store : Bytes) (e : Entry) (es : List Entry) :
+    usedSum store (e :: es) = decodeUsed store e.off e.cnt e.data + usedSum store es := by
+  simp [usedSum]
+
+theorem decodeAllB_ok {store budget raws es} (h : decodeAllB store budget raws = .ok es) :
+    es.map Entry.raw = raws ∧ (∀ e ∈ es, decode store e.data.typeCode e.off e.cnt = .ok e.data) ∧ usedSum store es ≤ budget := by
+  induction raws generalizing es budget with
   | nil =>
-    simp only [decodeAll, Out.pure_eq, Out.ok.injEq] at h; subst h; simp
+    simp only [decodeAllB, Out.pure_eq, Out.ok.injEq] at h; subst h; simp [usedSum]
   | cons r raws ih =>
     obtain ⟨tag, ty, off, cnt⟩ := r
-    simp only [decodeAll, Out.bind_eq_ok] at h
-    obtain ⟨d, hd, es', hes, h⟩ := h
-    simp only [Out.pure_eq, Out.ok.injEq] at h
-    subst h
-    obtain ⟨ih1, ih2⟩ := ih hes
-    have ht := decode_typeCode hd
-    refine ⟨by simp [Entry.raw, ht, ih1], ?_⟩
-    intro e he
-    simp only [List.mem_cons] at he
-    rcases he with rfl | he
-    · simp only [ht]; exact hd
-    · exact ih2 e he
+    simp only [decodeAllB, Out.bind_eq_ok] at h
+    obtain ⟨d, hd, h⟩ := h
+    split at h
+    · cases h
+    · rename_i hb
+      simp only [Out.bind_eq_ok] at h
+      obtain ⟨es', hes, h⟩ := h
+      simp only [Out.pure_eq, Out.ok.injEq] at h
+      subst h
+      obtain ⟨ih1, ih2, ih3⟩ := ih hes
+      have ht := decode_typeCode hd
+      refine ⟨by simp [Entry.raw, ht, ih1], ?_, ?_⟩
+      · intro e he
+        simp only [List.mem_cons] at he
+        rcases he with rfl | he
+        · simp only [ht]; exact hd
+        · exact ih2 e he
+      · rw [usedSum_cons]; simp only; omega
 
-theorem decodeAll_write {store : Bytes} {es : List Entry}
-    (h : ∀ e ∈ es, decode store e.data.typeCode e.off e.cnt = .ok e.data) :
-    decodeAll store (es.map Entry.raw) = .ok es := by
-  induction es with
+theorem decodeAllB_write {store : Bytes} {budget : Nat} {es : List Entry}
+    (h : ∀ e ∈ es, decode store e.data.typeCode e.off e.cnt = .ok e.data) (hb : usedSum store es ≤ budget) :
+    decodeAllB store budget (es.map Entry.raw) = .ok es := by
+  induction es generalizing budget with
   | nil => rfl
   | cons e es ih =>
     have he := h e (by simp)
-    have hes := ih (fun e' m => h e' (by simp [m]))
-    simp only [List.map_cons, Entry.raw, decodeAll]
+    rw [usedSum_cons] at hb
+    have hes := ih (fun e' m => h e' (by simp [m])) (budget := budget - decodeUsed store e.off e.cnt e.data) (by omega)
+    simp only [List.map_cons, Entry.raw, decodeAllB]
     rw [he]; simp only [Out.bind_ok]
-    rw [hes]; rfl
+    rw [if_neg (by omega), hes]; rfl
+
+/-- the budget refuses: the data of the entries, each decodable, is larger than the budget -/
+theorem decodeAllB_overlap {store : Bytes} {budget : Nat} {es : List Entry}
+    (h : ∀ e ∈ es, decode store e.data.typeCode e.off e.cnt = .ok e.data) (hb : budget < usedSum store es) :
+    decodeAllB store budget (es.map Entry.raw) = .err "overlap" := by
+  induction es generalizing budget with
+  | nil => simp [usedSum] at hb
+  | cons e es ih =>
+    have he := h e (by simp)
+    rw [usedSum_cons] at hb
+    simp only [List.map_cons, Entry.raw, decodeAllB]
+    rw [he]; simp only [Out.bind_ok]
+    split
+    · rfl
+    · rw [ih (fun e' m => h e' (by simp [m])) (budget := budget - decodeUsed store e.off e.cnt e.data) (by omega)]; rfl
+
+theorem decodeAll_ok {store raws es} (h : decodeAll store raws = .ok es) :
+    es.map Entry.raw = raws ∧ (∀ e ∈ es, decode store e.data.typeCode e.off e.cnt = .ok e.data)
+      ∧ usedSum store es ≤ store.length := decodeAllB_ok h
+
+theorem decodeAll_write {store : Bytes} {es : List Entry}
+    (h : ∀ e ∈ es, decode store e.data.typeCode e.off e.cnt = .ok e.data) (hb : usedSum store es ≤ store.length) :
+    decodeAll store (es.map Entry.raw) = .ok es := decodeAllB_write h hb
 
 end RpmVerif.Hdr
 
@@ -183,6 +220,9 @@ structure HeaderWF (h : Header) : Prop where
   dlLt : h.dataSize < 4294967296
   fields : ∀ e ∈ h.entries, RawWF e.raw
   dec : ∀ e ∈ h.entries, decode h.store e.data.typeCode e.off e.cnt = .ok e.data
+  /-- the byte budget of `parse_header`: the data of all entries together is not larger than the data section
+  (entries do not share store bytes) -/
+  budget : usedSum h.store h.entries ≤ h.store.length
 
 /-- on-disk bytes of a header with the given four reserved bytes -/
 def hdrBytes (res : Bytes) (h : Header) : Bytes :=
@@ -243,11 +283,11 @@ theorem parseHeader_ok {bs h rest} (hp : parseHeader bs = .ok (h, rest)) :
   obtain ⟨res, hres, rfl, hn, hd⟩ := parseIntro_ok l1 h2
   obtain ⟨rfl, l3⟩ := takeN_ok h3
   obtain ⟨rfl, l4, w4⟩ := parseEntriesRaw_ok h4
-  obtain ⟨m5, d5⟩ := decodeAll_ok h5
+  obtain ⟨m5, d5, b5⟩ := decodeAll_ok h5
   refine ⟨res, hres, ?_, ?_⟩
   · simp only [hdrBytes, m5, List.append_assoc]
   · have hlen : es.length = n := by rw [← l4, ← m5]; simp
-    refine ⟨hlen, ?_, hn, hd, ?_, d5⟩
+    refine ⟨hlen, ?_, hn, hd, ?_, d5, b5⟩
     · simp only [List.length_append, writeRaws_length, l4, ies] at l3
       show store.length = dl
       omega
@@ -280,8 +320,34 @@ theorem parseHeader_write {h : Header} (wf : HeaderWF h) {res : Bytes} (hr : res
     obtain ⟨e', he', rfl⟩ := List.mem_map.mp he
     exact wf.fields e' he')]
   simp only [Out.bind_ok]
-  rw [decodeAll_write wf.dec]
+  rw [decodeAll_write wf.dec wf.budget]
   simp only [Out.bind_ok, Out.pure_eq, List.length_map, wf.nEq]
+
+/-- **the budget rule is the only new refusal**: bytes that are a header in every other respect (sizes, fields, every
+entry's data decodes) whose entries are charged more than the data section holds are refused with class `overlap` -/
+theorem parseHeader_write_overlap {h : Header} (nEq : h.entries.length = h.nEntries) (dlEq : h.store.length = h.dataSize)
+    (nLt : h.nEntries < 4294967296) (dlLt : h.dataSize < 4294967296) (fields : ∀ e ∈ h.entries, RawWF e.raw)
+    (dec : ∀ e ∈ h.entries, decode h.store e.data.typeCode e.off e.cnt = .ok e.data)
+    (over : h.store.length < usedSum h.store h.entries) {res : Bytes} (hr : res.length = 4) (rest : Bytes) :
+    parseHeader (hdrBytes res h ++ rest) = .err "overlap" := by
+  have hlenI : (HEADER_MAGIC ++ [1] ++ res ++ be32 h.nEntries ++ be32 h.dataSize).length = INDEX_HEADER_SIZE := by
+    simp [hmagic, be32_length, hr, ihs]
+  have hlenB : (writeRaws (h.entries.map Entry.raw) ++ h.store).length = h.dataSize + h.nEntries * INDEX_ENTRY_SIZE := by
+    simp only [List.length_append, writeRaws_length, List.length_map, nEq, dlEq, ies]; omega
+  rw [hdrBytes_split, parseHeader, ← hlenI, takeN_append]
+  simp only [Out.bind_ok]
+  rw [parseIntro_write hr nLt dlLt]
+  simp only [Out.bind_ok]
+  rw [← hlenB, takeN_append]
+  simp only [Out.bind_ok]
+  have hn : h.nEntries = (h.entries.map Entry.raw).length := by simp [nEq]
+  rw [hn, parseEntriesRaw_write _ _ (by
+    intro e he
+    obtain ⟨e', he', rfl⟩ := List.mem_map.mp he
+    exact fields e' he')]
+  simp only [Out.bind_ok]
+  rw [decodeAll, decodeAllB_overlap dec over]
+  rfl
 
 end RpmVerif.Hdr
 
